@@ -233,8 +233,10 @@ func RunDifferentialQuiesced(prop, keyPrefix string, a, b *Scenario, monsB []Mon
 		blankUnnamedFailingPhase(pa, pb)
 		if !kubesim.JSONEqual(mustNorm(pa), mustNorm(pb)) {
 			key := keyPrefix + "-state-differs"
-			if blockedLaterDelegatedPhase(rb, firstDiffKey(pa, pb)) {
+			if blockedLaterDelegatedPhase(ra, rb, firstDiffKey(pa, pb)) {
 				key += ":object-of-later-delegated-phase-of-blocked-objectset"
+			} else if delegatedPhaseOfSetInTeardown(rb, firstDiffKey(pa, pb)) {
+				key += ":object-of-delegated-phase-of-objectset-in-teardown"
 			}
 			return rb.Labels, Violf(prop, key, "after step %d (%s) at quiescence the logical cluster state differs: %s", i, a.Steps[i].Op, firstDiff(pa, pb))
 		}
@@ -265,20 +267,59 @@ func firstDiffKey(a, b map[string]any) string {
 // blockedLaterDelegatedPhase: the differing object belongs to a delegated phase that is not the first phase of an
 // ObjectSet which is currently not Available (an earlier phase fails or is blocked): the known difference that
 // an existing ObjectSetPhase keeps reconciling although the in-process rollout would have stopped before it.
-func blockedLaterDelegatedPhase(r *Runner, diffKey string) bool {
+// delegatedPhaseOfSetInTeardown: the differing object belongs to a delegated phase of an ObjectSet that is being deleted or
+// archived and whose teardown has not reached that phase yet (teardown goes through the phases in reverse order and may wait,
+// e.g. for a finalizer on a later phase's object): the phase object is still there and its controller keeps reconciling it,
+// while an in-process phase of an ObjectSet in teardown is not reconciled any more.
+func delegatedPhaseOfSetInTeardown(r *Runner, diffKey string) bool {
 	for _, kind := range []string{"ObjectSet", "ClusterObjectSet"} {
 		for _, k := range r.W.ListKeys(engine.PKOGroup, kind) {
 			set := r.W.Store.PeekNoCopy(k)
-			if condTrue(set, "Available") {
+			if !OwnerDeleting(set) && !OwnerArchived(set) {
 				continue
 			}
-			for i, ph := range OwnerPhases(r.W.Store, set) {
-				if i == 0 || ph.Class == "" {
+			for _, ph := range OwnerPhases(r.W.Store, set) {
+				if ph.Class == "" {
+					continue
+				}
+				if r.W.Store.PeekNoCopy(phaseObjectKey(set, ph)) == nil {
 					continue
 				}
 				for _, ok := range ph.Keys {
 					if ok.String() == diffKey {
 						return true
+					}
+				}
+			}
+		}
+	}
+	return false
+}
+
+func blockedLaterDelegatedPhase(ra, r *Runner, diffKey string) bool {
+	for _, kind := range []string{"ObjectSet", "ClusterObjectSet"} {
+		for _, k := range r.W.ListKeys(engine.PKOGroup, kind) {
+			set := r.W.Store.PeekNoCopy(k)
+			for i, ph := range OwnerPhases(r.W.Store, set) {
+				if i == 0 || ph.Class == "" {
+					continue
+				}
+				for _, ok := range ph.Keys {
+					if !condTrue(set, "Available") && ok.String() == diffKey {
+						return true
+					}
+					// the later delegated phase produced (or kept) an object the in-process run does not have, and the first
+					// difference noticed is the ObjectSet itself (e.g. the Available verdict of the paused set over that object)
+					if ra != nil && k.String() == diffKey {
+						if (r.W.Store.PeekNoCopy(ok) == nil) != (ra.W.Store.PeekNoCopy(ok) == nil) {
+							return true
+						}
+						// ... or repaired an object of its phase (e.g. restored the cache label another revision's teardown had
+						// removed) which the in-process run, blocked at an earlier phase, does not touch: the in-process ObjectSet
+						// is not Available, the delegated one is
+						if as := ra.W.Store.PeekNoCopy(k); as != nil && !condTrue(as, "Available") {
+							return true
+						}
 					}
 				}
 			}
